@@ -270,6 +270,17 @@ func buildHost(s string) interface{} {
 		return p
 	case 'K':
 		return buildStatic(s)
+	case 'c': // a map which contains itself
+		m := map[string]interface{}{"a": 1}
+		m["self"] = m
+		return m
+	case 'n': // n<k>: maps nested k deep under the key "self", with a leaf at the bottom
+		k, _ := strconv.Atoi(s[1:])
+		var cur interface{} = map[string]interface{}{"a": 1, "leaf": 7}
+		for i := 0; i < k; i++ {
+			cur = map[string]interface{}{"a": 1, "self": cur}
+		}
+		return cur
 	case 'm': // maps and slices that were never made
 		var m map[string]interface{}
 		return m
@@ -653,6 +664,29 @@ func runHistory(c kv) string {
 			emit(fmt.Sprintf("%s|%s|%s|%d|%d|%s", res, tl.final(), encVars(e), scopes, residue, printed))
 		case "getvar":
 			emit("G|" + encValue(e.GetVariable(unhex(p[1]))))
+		case "badprepare":
+			// the host replaces the script by one that does not parse, prepares (which must fail, not panic),
+			// and puts the script back: a Prepare that fails must leave the evaluator as it was
+			crashed, failed := false, false
+			func() {
+				defer func() {
+					if r := recover(); r != nil {
+						crashed = true
+					}
+				}()
+				old := e.Script
+				e.Script = "x = [1, 2; return ((;"
+				failed = e.Prepare() != nil
+				e.Script = old
+			}()
+			switch {
+			case crashed:
+				emit("X")
+			case !failed:
+				emit("ACCEPTED")
+			default:
+				emit("U")
+			}
 		case "dump":
 			crashed := false
 			func() {
